@@ -234,6 +234,29 @@ void h_flush_variant(void)
   IORA_CANARY("h_flush_variant: next iteration");
 }
 
+/* ---- ITransport::receiveSyncCancellable (C03: "each byte exactly once ... never an undetectable gap"). Partial correctness (that the loop ends by the deadline is time: not decided). ---- */
+void h_recv_cancellable(void)
+{
+  ITransport tr; iora_token tok; iora_outbuf ob; size_t len = nondet_size_t(), len0 = len; int64_t timeout = nondet_i64(); SessionId sid = nondet_u64();
+  ob.cap = len; tok.cancelled = nondet_bool(); bool cancelled0 = tok.cancelled;
+  __CPROVER_assume(timeout >= -((int64_t)1 << 40) && timeout <= ((int64_t)1 << 40));
+  G_clock = nondet_i64(); __CPROVER_assume(G_clock >= 0 && G_clock <= ((int64_t)1 << 40));
+  G_attempts = 0; G_drained = 0; G_cancel_seen = 0; G_last_err = 0; G_last_ok = 0; G_definite_err = 0; IORA_TRUE = 1;
+  iora_result r = ITransport_receiveSyncCancellable(&tr, sid, &ob, &len, &tok, timeout);
+  IORA_CANARY("h_recv_cancellable: returns");
+  size_t reported = r.ok ? r.value : 0;
+  __CPROVER_assert(G_drained == reported, "RC1 every Ok result obtained from receiveSync is RETURNED to the caller unchanged: at every return the bytes drained from the sync buffer by this call equal the bytes reported (never dropped - no undetectable gap)");
+  __CPROVER_assert(!r.ok || (r.value == G_last_ok && len == r.value), "RC1b ... with len set to the byte count");
+  __CPROVER_assert(!(!r.ok && r.code == TransportError_Cancelled) || (G_drained == 0 && (G_cancel_seen || G_last_err == TransportError_Cancelled)), "RC2 Cancelled is returned only when no bytes were drained by this call (and the token was observed cancelled, or it is receiveSync's own second-waiter refusal)");
+  __CPROVER_assert(r.ok || len == len0, "RC2b an error leaves len untouched");
+  __CPROVER_assert(r.ok || r.code == TransportError_Cancelled || r.code == TransportError_Timeout || (G_attempts >= 1 && r.code == G_last_err), "RC3 non-timeout errors of receiveSync are propagated unchanged; Timeout sub-results only continue the loop (Timeout is returned at the deadline)");
+  __CPROVER_assert(!G_definite_err || (!r.ok && r.code == G_last_err), "RC3b a non-timeout error of receiveSync is what the call returns");
+  __CPROVER_assert(!cancelled0 || (!r.ok && r.code == TransportError_Cancelled && G_attempts == 0), "RC4 a token cancelled before the call: Cancelled, receiveSync is not called");
+  if (r.ok) { IORA_CANARY("h_recv_cancellable: bytes returned"); }
+  if (r.ok && G_attempts >= 2) { IORA_CANARY("h_recv_cancellable: bytes returned after earlier sub-timeouts"); }
+  if (!r.ok && r.code == TransportError_Cancelled && G_attempts >= 1) { IORA_CANARY("h_recv_cancellable: cancelled after waiting"); }
+}
+
 #ifdef IORA_SEARCH
 /* SEARCH for Q1: the violating state is reached by one fixed history: Sync, 2 bytes arrive, setReadMode(Disabled), setReadMode(Async).
  * SCEN selects that scripted history in replay.cpp. */
